@@ -346,7 +346,8 @@ Proof.
       destruct (0 <=? x) eqn:E1; [|apply Z.leb_gt in E1; lia].
       destruct (x <=? 2 ^ n - 1) eqn:E2; [|apply Z.leb_gt in E2; lia]. reflexivity.
   - apply big_set_string_int_to_string.
-  - apply big_set_string_int_to_string.
+  - rewrite big_set_string_int_to_string.
+    destruct (x <? 0) eqn:E; [apply Z.ltb_lt in E; lia|reflexivity].
 Qed.
 
 (* ================================================================== which strings are accepted: integers *)
@@ -357,7 +358,7 @@ Definition unsigned_kind (k : ikind) : Prop :=
 Definition small_unsigned_kind (k : ikind) : Prop :=
   match k with KUnsigned n | KWord n => 0 < n <= 64 | _ => False end.
 Definition big_unsigned_kind (k : ikind) : Prop :=
-  match k with KUnsigned n | KWord n => 64 < n | _ => False end.
+  match k with KUnsigned n | KWord n => 64 < n | KUInt => True | _ => False end.
 
 (* one grammar G for the whole class; a type only adds its range check *)
 Definition accept_uniform (cls : ikind -> Prop) : Prop :=
@@ -409,7 +410,11 @@ Theorem big_unsigned_from_string k s :
   match big_set_string s with Some v => if in_rangeb k v then Some v else None | None => None end.
 Proof.
   intro Hk. destruct k as [n|n|n| |]; simpl in Hk; try contradiction;
-    unfold int_from_string; (destruct (n <=? 64) eqn:E; [apply Z.leb_le in E; lia|]); reflexivity.
+    unfold int_from_string;
+    try ((destruct (n <=? 64) eqn:E; [apply Z.leb_le in E; lia|]); reflexivity).
+  destruct (big_set_string s) as [v|]; [|reflexivity].
+  unfold in_rangeb. simpl kmin. simpl kmax. rewrite andb_true_r.
+  rewrite Z.leb_antisym. destruct (v <? 0); reflexivity.
 Qed.
 
 Theorem small_unsigned_accept_uniform : accept_uniform small_unsigned_kind.
@@ -449,24 +454,13 @@ Proof.
   inversion H1; subst v. vm_compute in H2. discriminate.
 Qed.
 
-(* UInt.fromString has no range check at all *)
-Theorem uint_from_string_out_of_range :
-  exists s v, int_from_string KUInt s = Some v /\ ~ in_range KUInt v.
-Proof.
-  exists witness_minus5, (-5). split; [reflexivity|]. unfold in_range. simpl. lia.
-Qed.
-
-Theorem uint_from_string_partial s :
-  int_from_string KUInt s = big_set_string s.
-Proof. reflexivity. Qed.
-
-(* results are in range, for every kind but UInt *)
+(* results are in range, for every kind *)
 Theorem int_from_string_in_range k s v :
-  (match k with KSigned n | KUnsigned n | KWord n => 0 < n | KInt => True | KUInt => False end) ->
+  (match k with KSigned n | KUnsigned n | KWord n => 0 < n | _ => True end) ->
   int_from_string k s = Some v -> in_range k v.
 Proof.
   intros Hk H. apply in_rangeb_spec.
-  destruct k as [n|n|n| |]; try contradiction.
+  destruct k as [n|n|n| |].
   - rewrite signed_from_string_spec in H by exact Hk. unfold spec_int_from_string in H.
     destruct (grammar_int _ s); [|discriminate].
     destruct (in_rangeb (KSigned n) z) eqn:E; inversion H; subst; assumption.
@@ -485,7 +479,14 @@ Proof.
       destruct (big_set_string s); [|discriminate].
       destruct (in_rangeb (KWord n) z) eqn:E; inversion H; subst; assumption.
   - reflexivity.
+  - rewrite big_unsigned_from_string in H by exact I.
+    destruct (big_set_string s); [|discriminate].
+    destruct (in_rangeb KUInt z) eqn:E; inversion H; subst; assumption.
 Qed.
+
+(* UInt.fromString("-5") is nil *)
+Theorem uint_from_string_negative : int_from_string KUInt witness_minus5 = None.
+Proof. reflexivity. Qed.
 
 (* ================================================================== fixed-point: CheckRange *)
 Lemma check_range_full F mn mx neg uint fr :
